@@ -28,7 +28,7 @@ func init() {
 		Assumptions: []string{"refp7 verifier over the der TLV walker, crypto/rsa, crypto/sha256", "RSA and SHA-256 themselves are trusted", "soundness is relative to the enumerated derivation families"},
 		Units:       c04Units,
 		Run:         c04Run,
-		Bound:       func(tier string) map[string]any { return map[string]any{"byte_values_per_position": map[string]int{"quick": 8, "thorough": 255}[tier]} },
+		Bound:       func(tier string) map[string]any { return map[string]any{"byte_values_per_position": map[string]int{"quick": 12, "thorough": 255}[tier]} },
 		Budget:      dur(5*time.Minute, 40*time.Minute),
 	})
 }
@@ -184,18 +184,31 @@ func c04Run(c *hx.Ctx, tier, unit string) {
 		}
 	case "bytes":
 		k, _ := strconv.Atoi(parts[2])
-		var masks []byte
-		if tier == "thorough" {
-			for v := 1; v < 256; v++ {
-				masks = append(masks, byte(v))
+		// candidate replacement values per position: thorough = every other value; quick = every
+		// single-bit change plus the boundary values 0x00, 0xff, v-1, v+1 (length and tag bytes)
+		vals := func(v byte) []byte {
+			var out []byte
+			if tier == "thorough" {
+				for x := 0; x < 256; x++ {
+					if byte(x) != v {
+						out = append(out, byte(x))
+					}
+				}
+				return out
 			}
-		} else {
-			masks = []byte{1, 2, 4, 8, 16, 32, 64, 128}
+			seen := map[byte]bool{v: true}
+			for _, x := range []byte{v ^ 1, v ^ 2, v ^ 4, v ^ 8, v ^ 16, v ^ 32, v ^ 64, v ^ 128, 0x00, 0xff, v - 1, v + 1} {
+				if !seen[x] {
+					seen[x] = true
+					out = append(out, x)
+				}
+			}
+			return out
 		}
 		mut := append([]byte{}, s.Blob...)
 		for off := k; off < len(s.Blob); off += c04ByteShards {
-			for _, m := range masks {
-				mut[off] = s.Blob[off] ^ m
+			for _, x := range vals(s.Blob[off]) {
+				mut[off] = x
 				c04Judge(c, s, mut, "single byte change @"+strconv.Itoa(off), false)
 				if c.Expired() {
 					return
